@@ -86,7 +86,10 @@ def engine_oracle(case, impl):
             st = dict(kv.split("=") for kv in out.split(" "))
             if closed and st["phase"] != "closed":
                 return "key=error-not-closed PeerError emitted but phase=" + st["phase"]
-            if st["phase"] != "closed" and mx >= 0 and int(st["acc"]) >= max(64, 9 + mx):
+            # C07.accumulator_bounded: in the data phase fewer than 9 + MAXMSGSIZE undecoded bytes; before it the handshake frame
+            # limit max(MAXMSGSIZE, 8192) applies (a tiny MAXMSGSIZE must not make the handshake impossible), and a greeting is 64 bytes
+            bound = 9 + mx if st["phase"] == "data" else max(64, 9 + max(mx, 8192))
+            if st["phase"] != "closed" and mx >= 0 and int(st["acc"]) >= bound:
                 return "key=acc-unbounded accumulator holds %s bytes with MAXMSGSIZE=%d" % (st["acc"], mx)
             if int(st["partial"]) > 255:
                 return "key=partial-unbounded partial message has %s frames" % st["partial"]
